@@ -167,7 +167,7 @@ impl Runner {
     /// C01 oracle: compare a fresh `get` with what was put, under the exemptions the property grants
     fn check_put_get(&mut self,path: &str) -> Result<Got,String> {
         let sh = self.shadow.get(path).unwrap().clone();
-        let g = do_get(&mut self.disk,&api_path(&self.fs,path)).map_err(|e| format!("C01 get after put of {} failed: {}",path,e))?;
+        let g = do_get(&mut self.disk,&api_path(&self.fs,path)).map_err(|e| format!("C01,C05 get after put of {} failed (a stored file cannot be fetched): {}",path,e))?;
         let got_idx: Vec<usize> = g.chunks.keys().cloned().collect();
         let want_idx: Vec<usize> = sh.chunks.keys().cloned().collect();
         if got_idx!=want_idx { return Err(format!("C01 {}: chunk indices {} read back as {}",path,fmt_idx(&want_idx),fmt_idx(&got_idx))); }
@@ -395,7 +395,7 @@ pub fn run(toks: &[&str]) -> String {
         if let Some(e) = oracle { fail = Some(format!("{} [step {} op {}]",e,step,op)); break; }
         // after lock/unlock/retype the touched file's metadata legitimately changed: refresh its reference read
         if matches!(f[0],"L"|"U"|"T"|"R") && res=="ok" {
-            if let Some(k) = &touched { if r.shadow.contains_key(k) {
+            if let Some(k) = &touched { if r.shadow.get(k).map(|sh| !sh.is_dir).unwrap_or(false) {
                 match do_get(&mut r.disk,&api_path(&r.fs,k)) {
                     Ok(g) => {
                         let sh = r.shadow.get_mut(k).unwrap();
